@@ -171,6 +171,88 @@ def shift_operator_rule(chk, src):
                   "term subset or scaling, and the reported value is no longer min (lambda - omega)^2 of that operator")
 
 
+def iterative_matvec_rule(chk, src):
+    """abstract run of eigh_iterative up to the eigensolver call; the matrix-vector product handed to the solver is then applied to a symbolic vector and to a block of two
+    vectors: every column is unpacked with the sector mask the function was given, the effective-Hamiltonian expression is applied, the result is multiplied by `inverse`
+    exactly once and packed with the same mask; a block gives the columns in order"""
+    from ..syminterp import SymInterp, Sym, Blob, OpenSym
+    fi = src.func(GS, "eigh_iterative")
+
+    class Stop(Exception):
+        pass
+
+    class V(Sym):
+        """symbolic array expression"""
+        def __init__(self, expr, ndim=1, ncol=None):
+            super().__init__(str(expr))
+            self.expr, self.ndim, self.ncol = expr, ndim, ncol
+
+        @property
+        def shape(self):
+            return ("n",) if self.ndim == 1 else ("n", self.ncol)
+
+        def __getitem__(self, k):
+            if isinstance(k, tuple) and len(k) == 2 and k[0] == slice(None) and isinstance(k[1], int) and self.ndim == 2:
+                return V(("column", k[1], self.expr))
+            if isinstance(k, Sym) and k._name.startswith("mask"):
+                return V(("pack", self.expr, k._name))
+            raise AnalysisError(f"index {k!r} of a symbolic vector")
+
+        def __mul__(self, o):
+            return V(("times", self.expr, repr(o)))
+
+        __rmul__ = __mul__
+
+        def __truediv__(self, o):
+            return V(("div", self.expr, repr(o)))
+
+        def __sub__(self, o):
+            return V(("minus", self.expr, repr(o)))
+
+        def __add__(self, o):
+            return V(("plus", self.expr, repr(o)))
+
+        __radd__ = __add__
+    mask = Sym("mask(given)")
+    other_mask = Sym("mask(other)")
+    captured = {}
+
+    def solver(hop, *a, **k):
+        captured["hop"] = hop
+        raise Stop()
+    calls = []
+
+    def get_ham_iterative(mps, qn_mask, l, r, cmo, omega):
+        calls.append(qn_mask)
+        return V("hdiag"), (lambda c: V(("H", c.expr if isinstance(c, V) else repr(c))))
+    cfg = Sym("optimize_config", inverse=Sym("inverse"), algo="davidson", nroots=1)
+    it = SymInterp(src, None, {"get_ham_iterative": get_ham_iterative, "cvec2cmat": lambda c, m: V(("unpack", c.expr, m._name)), "asxp": lambda x: x, "asnumpy": lambda x: x,
+                               "davidson": solver, "np": OpenSym("np", make=lambda t: Blob(t), stack=lambda xs, axis=0: V(("stack", tuple(x.expr for x in xs), axis), 2, len(xs))),
+                               "xp": OpenSym("xp", make=lambda t: Blob(t)), "func_sum": lambda fs: fs[0], "isinstance": lambda x, t: False, "logger": Blob("logger"), "primme": Blob("primme")})
+    it.max_depth = 10
+    try:
+        it.call_function(fi, [Sym("mps", optimize_config=cfg), mask, Blob("l"), Blob("r"), Blob("cmo"), None, [V("guess")]])
+    except Stop:
+        pass
+    hop = captured.get("hop")
+    if hop is None:
+        raise AnalysisError(f"{fi.where}: the matrix-vector product does not reach the eigensolver")
+
+    def want_col(e):
+        return ("pack", ("times", ("H", ("unpack", e, "mask(given)")), "inverse"), "mask(given)")
+    r1 = hop(V("x"))
+    ok1 = isinstance(r1, V) and r1.expr == want_col("x")
+    chk.ob("mask-sibling", "eigh_iterative: matvec of one vector", ok1 and calls == [mask], fi.where, str(getattr(r1, "expr", r1)), str(want_col("x")), line=fi.node.lineno,
+           detail="the trial vector must be unpacked and the result packed with the one sector mask that also restricted the diagonal; `inverse` multiplies the result once")
+    r2 = hop(V("X", 2, 2))
+    want2 = ("stack", (want_col(("column", 0, "X")), want_col(("column", 1, "X"))), 1)
+    ok2 = isinstance(r2, V) and r2.expr == want2
+    chk.ob("mask-sibling", "eigh_iterative: matvec of a block of vectors", ok2, fi.where, str(getattr(r2, "expr", r2))[:200], str(want2)[:200], line=fi.node.lineno,
+           detail="a block is the column-wise matvec, columns stacked in order along axis 1")
+    chk.ob("inverse-sibling", "eigh_iterative.hop", ok1, fi.where, str(getattr(r1, "expr", r1)), "H(x) * inverse, once", line=fi.node.lineno,
+           detail="the `inverse` sign (largest-eigenvalue mode) must be applied identically in the direct matrix, the preconditioner and the matvec")
+
+
 def result_normalised_rule(chk, src):
     """abstract run of optimize_mps (sweeps stubbed) for one and for several roots: every returned state has been normalised, then brought to canonical form,
     and carries the compress configuration the input had on entry"""
@@ -261,16 +343,9 @@ def run(chk):
     inv_d = [unparse(c)[:60] for c in ast.walk(ed.node) if isinstance(c, ast.Call) and unparse(c.func).endswith("eigh") and "inverse" in unparse(c)]
     gi = src.func(GS, "get_ham_iterative")
     inv_h = [norm_stmt(s, 70) for s in ast.walk(gi.node) if isinstance(s, ast.Assign) and unparse(s.targets[0]) == "hdiag" and "inverse" in unparse(s.value)]
-    ei = src.func(GS, "eigh_iterative")
-    inv_x = [norm_stmt(s, 70) for s in ast.walk(ei.node) if isinstance(s, ast.Assign) and unparse(s.targets[0]) == "cout" and "inverse" in unparse(s.value)]
     chk.ob("inverse-sibling", "eigh_direct", len(inv_d) == 1, ed.where, inv_d, "eigh(ham * inverse)", line=ed.node.lineno)
     chk.ob("inverse-sibling", "get_ham_iterative.hdiag", len(inv_h) == 1, gi.where, inv_h, "hdiag = hdiag[qn_mask] * inverse", line=gi.node.lineno)
-    chk.ob("inverse-sibling", "eigh_iterative.hop", len(inv_x) == 1, ei.where, inv_x, "cout = expr(cstruct) * inverse", line=ei.node.lineno,
-           detail="the `inverse` sign (largest-eigenvalue mode) must be applied identically in the direct matrix, the preconditioner and the matvec")
-    hop = src.func(GS, "eigh_iterative.hop")
-    unpack = [unparse(c.args[1]) for c in ast.walk(hop.node) if isinstance(c, ast.Call) and unparse(c.func) == "cvec2cmat" and len(c.args) >= 2]
-    pack = [unparse(n.slice) for n in ast.walk(hop.node) if isinstance(n, ast.Subscript) and "cout" in unparse(n.value)]
-    chk.ob("mask-sibling", "eigh_iterative.hop", unpack == ["qn_mask"] and pack == ["qn_mask"], hop.where, {"unpack": unpack, "pack": pack}, "both qn_mask", line=hop.node.lineno)
+    iterative_matvec_rule(chk, src)
     ss = src.func(GS, "single_sweep")
     cv = [unparse(c.args[1]) for c in ast.walk(ss.node) if isinstance(c, ast.Call) and unparse(c.func) == "cvec2cmat"]
     chk.ob("mask-sibling", "single_sweep: eigenvector unpacked with the mask the solver used", cv == ["qn_mask"], ss.where, cv, ["qn_mask"], line=ss.node.lineno)
